@@ -19,6 +19,18 @@ DATA = [
     ('upload', '2024-01-01.json', 'file'),
     ('upload', '2023-12-25.json', 'file'),
 ]
+# more data files: a zero-length report and counter file, a hidden name, double suffixes, a name of 250 bytes
+DATA_X = [
+    ('local', 'empty.json', 'file'),
+    ('local', 'empty-2024-01-01.v1.count', 'file'),
+    ('local', '.hidden.json', 'file'),
+    ('local', 'x.json.json', 'file'),
+    ('local', 'x.json.v1.count', 'file'),
+    ('local', 'y.v1.count.json', 'file'),
+    ('upload', 'empty.json', 'file'),
+    ('upload', 'n' * 245 + '.json', 'file'),
+    ('local', 'm' * 241 + '.v1.count', 'file'),
+]
 NEAR = [
     ('local', 'prog-2024-01-01.v2.count', 'file'),
     ('local', 'prog.count', 'file'),
@@ -36,6 +48,11 @@ NEAR = [
     ('upload', '2024-01-01.jsonl', 'file'),
     ('upload', 'README', 'file'),
     ('upload', 'gopls-2024-01-01.v1.countx', 'file'),
+    ('local', '.json.bak', 'file'),
+    ('local', 'x.v1.count.v1', 'file'),
+    ('local', 'x.json.', 'file'),
+    ('local', 'k' * 250, 'file'),
+    ('upload', 'x.Json', 'file'),
 ]
 # non-empty directories whose names look like data files (os.Remove cannot remove them): they and their contents must stay, and the
 # data files that sort after them must still go.  By position among the data files of their directory: first, middle, last.
@@ -107,8 +124,9 @@ def run(ctx):
     rng = random.Random(ctx.seed * 7907 + 3)
 
     # ---- the family of initial directories ------------------------------------------
-    pool = DATA + NEAR + FOREIGN + BLOCKS
-    cid = {e: i + 1 for i, e in enumerate(pool)}
+    LOCAL_IS_FILE, UPLOAD_IS_FILE = ('root', 'local', 'file'), ('root', 'upload', 'file')
+    pool = DATA + DATA_X + NEAR + FOREIGN + BLOCKS + [LOCAL_IS_FILE, UPLOAD_IS_FILE]
+    cid = {e: (9999 if e[1].startswith('empty') else i + 1) for i, e in enumerate(pool)}
     near_halves = [[], NEAR, NEAR[0::2], NEAR[1::2]] if th else [NEAR[ctx.seed % 2::2], NEAR]
     # foreign entries x blocking directories
     rest_opts = [[], FOREIGN, BLOCK_FIRST, FOREIGN + BLOCK_MIDDLE, BLOCK_LAST, FOREIGN + BLOCKS]
@@ -123,6 +141,16 @@ def run(ctx):
         for n in near_halves:
             for f in rest_opts:
                 trees.append(d + n + f)
+    nspecial0 = len(trees)
+    # the extra data-file shapes, alone and among everything else
+    trees.append(DATA_X)
+    trees.append(DATA + DATA_X + NEAR + FOREIGN + BLOCKS)
+    trees.append([e for e in DATA_X if rng.random() < 0.5] + NEAR[::3] + BLOCK_MIDDLE)
+    # local/ or upload/ is a plain file, not a directory
+    trees.append([LOCAL_IS_FILE] + [e for e in DATA + DATA_X + NEAR if e[0] == 'upload'] + [e for e in FOREIGN if e[0] in ('root', 'debug')])
+    trees.append([UPLOAD_IS_FILE] + [e for e in DATA + NEAR if e[0] == 'local'])
+    trees.append([LOCAL_IS_FILE, UPLOAD_IS_FILE, ('root', 'stray.json', 'file')])
+    special = list(range(nspecial0, len(trees)))
     # a few seed-dependent mixed directories
     for _ in range(ctx.pick(12, 60)):
         t = [e for e in DATA + NEAR + FOREIGN if rng.random() < 0.5 and not (e[0] in ('debug', 'local/sub', 'upload/old'))] + [e for e in FOREIGN if e[2] == 'dir']
@@ -135,7 +163,7 @@ def run(ctx):
     modes = ['Absent', 'Unreadable']
     mode_dates = (NODATE, BADDATE, TODAY, TODAY - 1, TODAY - 400) if th else (NODATE, TODAY - 1, (BADDATE, TODAY, TODAY - 400)[ctx.seed % 3])
     modes += [mf_tla('text', w, d) for w in ('on', 'off', 'local') for d in mode_dates]
-    modes += [mf_tla('text', 'ON'), mf_tla('text', ''), mf_tla('text', 'lokal', TODAY - 3), mf_tla('text', 'on', TODAY - 1, True), mf_tla('text', 'off', NODATE, True),
+    modes += [mf_tla('text', 'on', TODAY + 5)] + ([mf_tla('text', 'off', TODAY + 400)] if th else []) + [mf_tla('text', 'ON'), mf_tla('text', ''), mf_tla('text', 'lokal', TODAY - 3), mf_tla('text', 'on', TODAY - 1, True), mf_tla('text', 'off', NODATE, True),
               mf_tla('text', 'local', TODAY - 30, True)]
     def mcmod(tt):
         return '''---- MODULE MCGotelemetry ----
@@ -145,21 +173,21 @@ MCModeFiles == {%s}
 ====
 ''' % (',\n  '.join(tt), ', '.join(modes))
     mc = mcmod(tree_tla)
-    # the (directory, command) pairs that are replayed: every fourth directory of the family, chosen by the seed
-    step = 4
+    # the (directory, command) pairs that are replayed: every fifth (quick) / fourth (thorough) directory of the family, chosen by the seed, plus the special ones
+    step = ctx.pick(5, 4)
     off = ctx.seed % step
-    mc_pairs = mcmod(tree_tla[off::step])
+    mc_pairs = mcmod(tree_tla[off::step] + [tree_tla[i] for i in special if (i - off) % step])
 
-    def cfg(maxcmds, props=True):
+    def cfg(maxcmds, props=True, bad=()):
         t = 'SPECIFICATION Spec\nCHECK_DEADLOCK FALSE\n'
         if props:
             t += ('INVARIANTS TypeOK CleanedStaysClean\nPROPERTIES CleanRemovesData CleanNothingElse CleanKeepsNonEmptyDirs ModeOnlyMode NoOpWhenSame Records '
-                  'NoCommandCreatesData AfterModeCmdItReads CleanIdempotent EnvShowsTheFile\n')
-        t += 'CONSTANTS\n Trees <- MCTrees\n ModeFiles <- MCModeFiles\n Today = %d\n MaxCmds = %d\n' % (TODAY, maxcmds)
+                  'NoCommandCreatesData AfterModeCmdItReads CleanIdempotent EnvShowsTheFile RefusedChangesNothing\n')
+        t += 'CONSTANTS\n Trees <- MCTrees\n ModeFiles <- MCModeFiles\n Today = %d\n MaxCmds = %d\n BadCmds = {%s}\n' % (TODAY, maxcmds, ', '.join('"%s"' % b for b in bad))
         return t
 
     # ---- 1. exhaustive check of the model ------------------------------------------------
-    r = ctx.tlc('MCGotelemetry', files={'MCGotelemetry.tla': mc}, cfg_text=cfg(ctx.pick(3, 4)), label='Gotelemetry-bfs', timeout=2400)
+    r = ctx.tlc('MCGotelemetry', files={'MCGotelemetry.tla': mc}, cfg_text=cfg(ctx.pick(3, 4), bad=('clean all',) if not th else ('clean all', 'on now')), label='Gotelemetry-bfs', timeout=2400)
     if not r.ok:
         raise Infra('Gotelemetry.tla violates its own %s %s\n%s' % (r.error, r.error_name, r.out[-3000:]))
 
@@ -182,7 +210,7 @@ MCModeFiles == {%s}
     npairs = len(scenarios)
 
     # ---- 3. command sequences: -simulate behaviours ---------------------------------------
-    r = ctx.tlc('MCGotelemetry', files={'MCGotelemetry.tla': mc}, cfg_text=cfg(6, props=False), simulate={'num': ctx.pick(200, 2000), 'file': True},
+    r = ctx.tlc('MCGotelemetry', files={'MCGotelemetry.tla': mc}, cfg_text=cfg(6, props=False, bad=('clean all', 'on now', 'local x', 'off x', 'env x', 'purge')), simulate={'num': ctx.pick(160, 2000), 'file': True},
                 depth=8, label='Gotelemetry-sim', count=False)
     if r.error:
         raise Infra('Gotelemetry simulate: %s\n%s' % (r.error, r.out[-2000:]))
@@ -201,12 +229,16 @@ MCModeFiles == {%s}
         nbeh += 1
     if nbeh == 0:
         raise Infra('no behaviours from TLC simulate')
+    # the environment of the command: XDG_CONFIG_HOME set or only HOME; TZ unset or far east / west of UTC
+    for sc in scenarios:
+        sc['noxdg'] = sc['id'] % 5 == 2
+        sc['tz'] = ('', '', '', 'Pacific/Kiritimati', '', 'Etc/GMT+12', '')[sc['id'] % 7]
     ctx.log('pairs %d, behaviours %d' % (npairs, nbeh))
     ctx.sample({'kind': 'pair', 'cmd': scenarios[0]['cmds'], 'modeFile': scenarios[0]['init']['modeFile'], 'names': [e['loc'] + '/' + e['name'] for e in scenarios[0]['init']['tree']][:12]})
     ctx.sample({'kind': 'behaviour', 'cmds': scenarios[npairs]['cmds'], 'modeFile': scenarios[npairs]['init']['modeFile']})
 
     # ---- 4. the real binary ------------------------------------------------------------------
-    recs, rc, out = ctx.run_harness('./internal/verifh/c19', 'TestVerifC19', inp={'scenarios': scenarios, 'random': ctx.pick(900, 8000), 'today': TODAY}, timeout=2400)
+    recs, rc, out = ctx.run_harness('./internal/verifh/c19', 'TestVerifC19', inp={'scenarios': scenarios, 'random': ctx.pick(700, 8000), 'today': TODAY}, timeout=2400)
     if not [x for x in recs if x.get('kind') == 'summary']:
         raise Infra('C19 harness wrote no summary:\n' + out[-3000:])
     for x in recs:
@@ -217,7 +249,7 @@ MCModeFiles == {%s}
     ctx.log('commands run on the real binary: %d' % len(obs))
 
     # ---- 5. TLC judges every command ---------------------------------------------------------
-    keep = ('cmd', 's', 't', 'modeSame', 'env', 'lib', 'today0', 'today1', 'rc')
+    keep = ('cmd', 's', 't', 'modeSame', 'env', 'lib', 'today0', 'today1', 'rc', 'tz')
     verdicts = {}
     chunk = 30000
     for i in range(0, len(obs), chunk):
